@@ -30,6 +30,8 @@ RULE = (
     "random positive or Becke atom-in-molecule weights, seeded data. non-trivial = mixed per-shell degrees or rotate != 0 "
     "or centre != 0 or (bandlimited) active content with l >= 2; distinct = distinct descriptor"
 )
+RULE = RULE + " " + 'Values are evaluated through a work array that held other points in an earlier call and was re-filled in place.'
+
 ASSUMPTIONS = [
     "pbt.oracles.sph implements the documented real harmonics (self-tested against mpmath); the shipped angular grids are exact to ~3e-12 (C02)",
     "SciPy CubicSpline objects returned by the library are evaluated (values and derivatives) with SciPy itself",
